@@ -130,7 +130,7 @@ def finish(meta, sdir, prop, k):
     if os.path.exists(old):
         try:
             oj = json.load(open(old))
-            for keep in ("history", "confirm_note"):
+            for keep in ("history", "confirm_note", "superseded_by_fix"):
                 if keep in oj and keep not in meta:
                     meta[keep] = oj[keep]
             if oj.get("confirm_note"):
